@@ -72,7 +72,7 @@ PushPayload(r, round) ==
   IN head \o Be3(Parity(head))
 PushFrame(r, round) == <<26, 51, 255, round, 0, 0, 0, r, 40>> \o PushPayload(r, round)
 
-StepKinds == <<"new", "new", "new", "dupother", "dupother", "dupsame", "bad", "modeac", "status">>
+StepKinds == <<"new", "new", "new", "dupother", "dupother", "dupother", "dupother", "dupsame", "bad", "modeac", "status">>
 GapBag == <<"zero", "dup", "dup", "mid", "mid", "far">>
 ChunkBag == <<"whole", "whole", "dribble", "esc", "k7", "straddle">>
 FilterClasses == <<"absent", "absent", "absent", "absent", "some", "some", "some", "empty", "other">>
@@ -80,14 +80,23 @@ FilterClasses == <<"absent", "absent", "absent", "absent", "some", "some", "some
 VARIABLES gw, gnrx, gvia, gdfc, gacc, gchunk, gn, gsteps, gpend, gdone
 gvars == <<gw, gnrx, gvia, gdfc, gacc, gchunk, gn, gsteps, gpend, gdone>>
 
-Init == /\ \E x \in 1..Len(WBag) : gw = WBag[x]
-        /\ gnrx \in 1..MaxRx
-        /\ gvia \in {"cli", "toml"}
-        /\ \E x \in 1..Len(FilterClasses) : gdfc = FilterClasses[x]
-        /\ \E x \in 1..Len(FilterClasses) : gacc = FilterClasses[x]
-        /\ gchunk \in [1..MaxRx -> {ChunkBag[x] : x \in 1..Len(ChunkBag)}]
-        /\ gn \in 2..MaxSteps
+Bag(seq) == {seq[x] : x \in 1..Len(seq)}
+(* the scenario parameters are drawn one per step (a single initial state; the *)
+(* simulator chooses uniformly among the successors of each step)              *)
+Init == /\ gw = -1 /\ gnrx = 0 /\ gvia = "" /\ gdfc = 0 /\ gacc = 0 /\ gchunk = <<>> /\ gn = 0
         /\ gsteps = <<>> /\ gpend = <<>> /\ gdone = FALSE
+SetupDone == gn # 0
+Setup ==
+  /\ ~SetupDone
+  /\ \/ gw = -1 /\ gw' \in 1..Len(WBag) /\ UNCHANGED <<gnrx, gvia, gdfc, gacc, gchunk, gn>>
+     \/ gw # -1 /\ gnrx = 0 /\ gnrx' \in 1..MaxRx /\ UNCHANGED <<gw, gvia, gdfc, gacc, gchunk, gn>>
+     \/ gnrx # 0 /\ gvia = "" /\ gvia' \in {"cli", "toml"} /\ UNCHANGED <<gw, gnrx, gdfc, gacc, gchunk, gn>>
+     \/ gvia # "" /\ gdfc = 0 /\ gdfc' \in 1..Len(FilterClasses) /\ UNCHANGED <<gw, gnrx, gvia, gacc, gchunk, gn>>
+     \/ gdfc # 0 /\ gacc = 0 /\ gacc' \in 1..Len(FilterClasses) /\ UNCHANGED <<gw, gnrx, gvia, gdfc, gchunk, gn>>
+     \/ gacc # 0 /\ Len(gchunk) < gnrx /\ \E x \in 1..Len(ChunkBag) : gchunk' = Append(gchunk, x)
+            /\ UNCHANGED <<gw, gnrx, gvia, gdfc, gacc, gn>>
+     \/ gacc # 0 /\ Len(gchunk) = gnrx /\ gn' \in 2..MaxSteps /\ UNCHANGED <<gw, gnrx, gvia, gdfc, gacc, gchunk>>
+  /\ UNCHANGED <<gsteps, gpend, gdone>>
 
 LastPay == IF gsteps = <<>> THEN Pool[1] ELSE Payload(gsteps[Len(gsteps)].fr)
 LastRx == IF gsteps = <<>> THEN 1 ELSE gsteps[Len(gsteps)].rx
@@ -97,14 +106,14 @@ LastDec == gsteps # <<>> /\ gsteps[Len(gsteps)].dec
 (* a step is drawn in three moves (kind, frame/receiver/id class, gap) so    *)
 (* that the simulator's uniform choice among successors stays meaningful     *)
 Draw ==
-  /\ Len(gsteps) < gn
+  /\ SetupDone /\ Len(gsteps) < gn
   /\ LET s == Len(gsteps) + 1 IN
      \/ /\ Len(gpend) = 0
-        /\ \E x \in 1..Len(StepKinds) : gpend' = <<StepKinds[x]>>
+        /\ \E x \in 1..Len(StepKinds) : gpend' = <<x>>
         /\ UNCHANGED gsteps
      \/ /\ Len(gpend) = 1
         /\ \E c \in 0..5 :
-           LET kind == IF gpend[1] \in {"dupother", "dupsame"} /\ ~LastDec THEN "new" ELSE gpend[1] IN
+           LET kind == IF StepKinds[gpend[1]] \in {"dupother", "dupsame"} /\ ~LastDec THEN "new" ELSE StepKinds[gpend[1]] IN
            CASE kind = "new" ->
                   \E x \in 1..NPool, r \in 1..gnrx :
                      gpend' = <<kind, [rx |-> r, fr |-> Frame(TypeFor(Pool[x]), s, c, Pool[x]), dec |-> TRUE]>>
@@ -124,13 +133,13 @@ Draw ==
      \/ /\ Len(gpend) = 2
         /\ \E x \in 1..Len(GapBag) :
              LET g == IF gpend[1] = "dupother" /\ x <= 4 THEN "dup" ELSE GapBag[x] IN
-             gsteps' = Append(gsteps, [rx |-> gpend[2].rx, fr |-> gpend[2].fr, dec |-> gpend[2].dec, gap |-> g])
-        /\ gpend' = <<>>
+             /\ gpend' = <<>>
+             /\ gsteps' = Append(gsteps, [rx |-> gpend[2].rx, fr |-> gpend[2].fr, dec |-> gpend[2].dec, gap |-> g])
   /\ UNCHANGED <<gw, gnrx, gvia, gdfc, gacc, gchunk, gn, gdone>>
 
-Finish == /\ Len(gsteps) = gn /\ ~gdone /\ gdone' = TRUE
+Finish == /\ SetupDone /\ Len(gsteps) = gn /\ ~gdone /\ gdone' = TRUE
           /\ UNCHANGED <<gw, gnrx, gvia, gdfc, gacc, gchunk, gn, gsteps, gpend>>
-Next == Draw \/ Finish
+Next == Setup \/ Draw \/ Finish
 Spec == Init /\ [][Next]_gvars
 
 (* filter lists, resolved against the frames of the scenario: "some" holds  *)
@@ -139,17 +148,19 @@ Spec == Init /\ [][Next]_gvars
 DecSteps == {x \in 1..Len(gsteps) : gsteps[x].dec}
 SetToSortedSeq(S) == SortSeq(SetToSeq(S), <)
 PushAddrs == {PushAddr(r, round) : r \in 1..gnrx, round \in 1..3}
-DfList == CASE gdfc = "some" -> {ShownDF(Payload(gsteps[x].fr)) : x \in {y \in DecSteps : y % 2 = 1}} \cup {17}
-            [] gdfc = "other" -> {19}
+DfClass == FilterClasses[gdfc]
+AcClass == FilterClasses[gacc]
+DfList == CASE DfClass = "some" -> {ShownDF(Payload(gsteps[x].fr)) : x \in {y \in DecSteps : y % 2 = 1}} \cup {17}
+            [] DfClass = "other" -> {19}
             [] OTHER -> {}
-AcList == CASE gacc = "some" -> {AddrOf(Payload(gsteps[x].fr)) : x \in {y \in DecSteps : y % 2 = 1}} \cup PushAddrs
-            [] gacc = "other" -> {16395}
+AcList == CASE AcClass = "some" -> {AddrOf(Payload(gsteps[x].fr)) : x \in {y \in DecSteps : y % 2 = 1}} \cup PushAddrs
+            [] AcClass = "other" -> {16395}
             [] OTHER -> {}
 Scenario ==
-  [w |-> gw, nrx |-> gnrx, via |-> gvia,
-   df_present |-> gdfc # "absent", df_list |-> SetToSortedSeq(DfList),
-   ac_present |-> gacc # "absent", ac_list |-> SetToSortedSeq(AcList),
-   chunk |-> [r \in 1..gnrx |-> gchunk[r]],
+  [w |-> WBag[gw], nrx |-> gnrx, via |-> gvia,
+   df_present |-> DfClass # "absent", df_list |-> SetToSortedSeq(DfList),
+   ac_present |-> AcClass # "absent", ac_list |-> SetToSortedSeq(AcList),
+   chunk |-> [r \in 1..gnrx |-> ChunkBag[gchunk[r]]],
    steps |-> gsteps,
    push |-> [round \in 1..3 |-> [r \in 1..gnrx |-> PushFrame(r, round)]]]
 Emit == IF gdone THEN PrintT(ToJson(Scenario)) ELSE TRUE
